@@ -93,6 +93,12 @@ Theorem C12_filter_float : forall rnd u res that K dmax ds, 0 <= u -> (forall x,
 Proof. exact float_filter_bounds. Qed.
 Print Assumptions C12_filter_float.
 
+(* the window length K: for the exact filter, distances of at least dmin and K dmin > 0.9 res bound every accumulation window
+   by K subtractions -- constant-speed sampling every res/10 .. res/9 of length (C12_sampling) gives K = 10 *)
+Theorem C12_window_length : forall res dmin K, 0 < res -> 0 < dmin -> (9 # 10) * res < inject_Z (Z.of_nat K) * dmin ->
+  forall ds, Forall (fun d => dmin <= d) ds -> windows_le K 0 (mask_loop res res ds).
+Proof. exact exact_windows_top. Qed.
+
 Theorem C12_float_exact : forall res ds rem, fmask (fun x => x) res (res / filter_tolerance_div) rem ds = mask_loop res rem ds.
 Proof. exact fmask_exact. Qed.
 
